@@ -1,4 +1,6 @@
 import BoxoModel.C08.Lemmas
+import BoxoModel.C07.GenBridge
+import BoxoModel.Gen.C08
 /-!
 # C08 — Appending to a trickle DAG preserves content and trickle layout
 
@@ -84,6 +86,73 @@ theorem c08_mtime_rule (w : Nat) (fs : Nat) (links : List (FNode × Nat)) (cs : 
   obtain ⟨hlt, new, e1, e2⟩ := enterLayer_was0 w _ _ h0
   exact ⟨hlt, (enterLayer w { links := links, filesize := fs } { spl := cs }).fsn.filesize, new,
     by rw [hr]; simp only [Builder.commit, e1], e2⟩
+
+/-! ## T-gen: `trickleDepthInfo` and the conditions of Append / appendFillLastChild / appendRec, regenerated from
+the Go source on every run (`extract intsq` → `BoxoModel/Gen/C08.lean`), agree with the model's definitions for
+all child counts / widths / depths below 2^63. -/
+
+/-- trickleDepthInfo: both results -/
+theorem c08_gen_trickleDepthInfo (n w : Nat) (hn : n < 2 ^ 63) (hw : w < 2 ^ 63) :
+    (Gen.C08.trickleDepthInfo_depth (BitVec.ofNat 64 n) (BitVec.ofNat 64 w)).toNat = (trickleDepthInfo n w).1 ∧
+    (Gen.C08.trickleDepthInfo_repeatNumber (BitVec.ofNat 64 n) (BitVec.ofNat 64 w)).toNat = (trickleDepthInfo n w).2 := by
+  unfold Gen.C08.trickleDepthInfo_depth Gen.C08.trickleDepthInfo_repeatNumber trickleDepthInfo depthRepeat
+  simp only [GoSmall.slt n w hn hw]
+  by_cases h : n < w
+  · simp [h]
+  · simp only [h, decide_false, Bool.false_eq_true, if_false]
+    rw [GoSmall.sub n w hn (by omega), GoSmall.sdiv4 _ (by omega), GoSmall.srem4 _ (by omega)]
+    constructor
+    · rw [show (1#64) = BitVec.ofNat 64 1 from rfl, ← BitVec.ofNat_add, GoSmall.toNat_ofNat _ (by omega)]
+    · rw [GoSmall.toNat_ofNat _ (by omega)]
+
+/-- appendFillLastChild returns at once iff `NumChildren() <= Maxlinks()` -/
+theorem c08_gen_appendFillLastChild_skip (n w : Nat) (hn : n < 2 ^ 63) (hw : w < 2 ^ 63) :
+    Gen.C08.appendFillLastChildSkip (BitVec.ofNat 64 w) (BitVec.ofNat 64 n) = decide (n ≤ w) := by
+  simp [Gen.C08.appendFillLastChildSkip, GoSmall.sle n w hn hw]
+
+/-- the group-completion loop of appendFillLastChild runs while `repeatNumber < depthRepeat && !db.Done()` -/
+theorem c08_gen_group_loop (r : Nat) (done : Bool) (hr : r < 2 ^ 63) :
+    Gen.C08.appendFillGroupLoopCond done (BitVec.ofNat 64 r) = (decide (r < depthRepeat) && !done) := by
+  simp only [Gen.C08.appendFillGroupLoopCond, depthRepeat]
+  rw [show (4#64) = BitVec.ofNat 64 4 from rfl, GoSmall.slt r 4 hr (by omega)]; rfl
+
+/-- the depth bump after appendFillLastChild (the line the fix changed): `repeatNumber != 0 && !db.Done()` is
+`bumpDepth`'s test -/
+theorem c08_gen_depth_bump (rep depth : Nat) (db : DB) (hr : rep < 2 ^ 63) :
+    (bumpDepth rep depth db).2 =
+      if Gen.C08.appendDepthBump db.done.2 (BitVec.ofNat 64 rep) then depth + 1 else depth := by
+  have e : (BitVec.ofNat 64 rep != 0#64) = decide (rep ≠ 0) := by
+    by_cases h : rep = 0
+    · subst h; simp
+    · simp only [ne_eq, h, not_false_eq_true, decide_true, bne_iff_ne]
+      intro e
+      have := congrArg BitVec.toNat e
+      rw [GoSmall.toNat_ofNat _ hr] at this
+      simp at this; exact h this
+  unfold bumpDepth Gen.C08.appendDepthBump
+  rw [e]
+  by_cases h : rep = 0
+  · simp [h]
+  · cases hd : db.done.2 <;> simp [h, hd]
+
+/-- appendRec: stops at once iff `maxDepth == 0 || db.Done()`; its depth loop runs while `i < maxDepth && !db.Done()` -/
+theorem c08_gen_appendRec_conds (i : Nat) (m : Int) (done : Bool) (hi : i < 2 ^ 63)
+    (hm : -(2 ^ 63 : Int) ≤ m) (hm' : m < 2 ^ 63) :
+    Gen.C08.appendRecStop done (BitVec.ofInt 64 m) = (decide (m = 0) || done) ∧
+    Gen.C08.appendRecDepthLoopCond done (BitVec.ofNat 64 i) (BitVec.ofInt 64 m) = (decide ((i : Int) < m) && !done) := by
+  constructor
+  · have e : (BitVec.ofInt 64 m == 0#64) = decide (m = 0) := by
+      by_cases h : m = 0
+      · subst h; simp
+      · simp only [h, decide_false, beq_eq_false_iff_ne, ne_eq]
+        intro e
+        have := congrArg BitVec.toInt e
+        simp only [BitVec.toInt_ofInt] at this
+        have h1 : m.bmod (2 ^ 64) = m := by apply Int.bmod_eq_of_le <;> omega
+        rw [h1] at this
+        simp at this; exact h this
+    simp only [Gen.C08.appendRecStop, e]
+  · simp only [Gen.C08.appendRecDepthLoopCond, GoSmall.slt_int i m hi hm hm']
 
 /-! ## Non-vacuity -/
 
